@@ -373,16 +373,39 @@ fn cmd_sched(a: &Value) -> Value {
         let s = Scenario::from_json(sc);
         let mut uni: Vec<String> = Vec::new();
         for i in 0..s.locs.len() {
-            let (a, k) = slot_of(&s.locs, i);
+            let (a, k) = s.slots[i];
             uni.push(format!("S:{a:x}:{k:x}"));
             uni.push(format!("R:{a:x}"));
             uni.push(format!("B:{a:x}"));
+        }
+        if let Some(list) = sc["accounts"].as_array() {
+            for acc in list {
+                let a = named(&s, acc["name"].as_str().unwrap());
+                uni.push(format!("B:{a:x}"));
+                if let Some(m) = acc["storage"].as_object() {
+                    for k in m.keys() {
+                        uni.push(format!("S:{a:x}:{:x}", k.parse::<u64>().unwrap()));
+                    }
+                }
+            }
+        }
+        if let Some(list) = sc["watch"].as_array() {
+            // extra locations to compare: ["name", slot] or ["name"]
+            for w in list {
+                let a = named(&s, w[0].as_str().unwrap());
+                uni.push(format!("B:{a:x}"));
+                if let Some(k) = w[1].as_u64() {
+                    uni.push(format!("S:{a:x}:{k:x}"));
+                }
+            }
         }
         uni.push(format!("B:{:x}", holder()));
         uni.push(format!("B:{:x}", driver()));
         for i in 0..s.n {
             uni.push(format!("B:{:x}", grevm::test_utils::common::account::mock_eoa_address(i)));
         }
+        let resets: Vec<String> = uni.iter().filter(|l| l.starts_with("S:")).map(|l| format!("R:{}", l.split(':').nth(1).unwrap())).collect();
+        uni.extend(resets);
         uni.sort();
         uni.dedup();
         // persistent faults: the oracle is in-order execution on the same faulty database;
@@ -397,6 +420,7 @@ fn cmd_sched(a: &Value) -> Value {
         let mut steps = 0usize;
         let mut sample = Value::Null;
         let mut guided: Vec<Value> = Vec::new();
+        let mut policy_other = None;
         for k in 0..runs {
             let policy = match a["policy"].as_str().unwrap_or("pct") {
                 "replay" => policy_of(a, vec![]),
@@ -404,7 +428,7 @@ fn cmd_sched(a: &Value) -> Value {
                     a["guide"].as_array().unwrap().iter().map(|g| {
                         let loc = g[2].as_str().map(|name| {
                             // model location name -> raw event location of this scenario
-                            s.locs.iter().position(|l| l == name).map_or(name.to_owned(), |i| { let (a, k) = slot_of(&s.locs, i); format!("S:{a:x}:{k:x}") })
+                            s.locs.iter().position(|l| l == name).map_or(name.to_owned(), |i| { let (a, k) = s.slots[i]; format!("S:{a:x}:{k:x}") })
                         });
                         (g[0].as_str().unwrap().to_owned(), g[1].as_str().unwrap().to_owned(), loc)
                     }).collect()),
@@ -426,6 +450,12 @@ fn cmd_sched(a: &Value) -> Value {
             let seen = universe(&o.record);
             if seen.iter().any(|l| !uni.contains(l)) {
                 for l in seen {
+                    if l.starts_with("S:") {
+                        let r = format!("R:{}", l.split(':').nth(1).unwrap());
+                        if !uni.contains(&r) {
+                            uni.push(r);
+                        }
+                    }
                     if !uni.contains(&l) {
                         uni.push(l);
                     }
@@ -434,7 +464,14 @@ fn cmd_sched(a: &Value) -> Value {
                 reference = sched::reference(&s, &uni, faulty_ref);
             }
             let evs = trace_events(&s, &o.record);
-            let found = monitors(&s, &reference, &o);
+            let found = if sc["oracle"].as_str() == Some("policy") {
+                if policy_other.is_none() {
+                    policy_other = Some(run_plain(&s, 1, true, 0, false));
+                }
+                policy_monitors(&s, &o, policy_other.as_ref().unwrap())
+            } else {
+                monitors(&s, &reference, &o)
+            };
             if a["policy"].as_str() == Some("guide") {
                 guided.push(json!({"followed": o.record.guide_pos, "of": a["guide"].as_array().map_or(0, |g| g.len()),
                     "diverged": o.record.diverged}));
@@ -442,6 +479,11 @@ fn cmd_sched(a: &Value) -> Value {
             let header = json!({
                 "name": s.name, "n": s.n, "workers": workers,
                 "locs": uni.iter().map(|l| loc_name(&s, l)).collect::<Vec<_>>(),
+                "resetOf": uni.iter().map(|l| {
+                    let parts: Vec<&str> = l.split(':').collect();
+                    let r = format!("R:{}", parts[1]);
+                    (loc_name(&s, l), json!(if parts[0] == "S" && uni.contains(&r) { loc_name(&s, &r) } else { "none".to_owned() }))
+                }).collect::<serde_json::Map<_, _>>(),
                 "ref": reference.states.iter().map(|m| m.iter().map(|(l, v)| (loc_name(&s, l), json!(v))).collect::<serde_json::Map<_, _>>()).collect::<Vec<_>>(),
                 "refkind": reference.steps.iter().map(|st| match &st.outcome { Some(TxExecutionOutcome::Executed(_)) => "executed", _ => "skipped" }).collect::<Vec<_>>(),
                 "fatal_at": reference.error.as_ref().map_or(s.n as i64, |(k, _)| *k as i64),
@@ -463,6 +505,58 @@ fn cmd_sched(a: &Value) -> Value {
             "sample": sample, "guided": guided}));
     }
     json!({"scenarios": per, "violations": violations, "trace_runs": out.runs, "trace_events": out.events})
+}
+
+/// C06: the observable of a block under a matrix of configurations (uncontrolled real threads).
+fn cmd_matrix(a: &Value) -> Value {
+    use sched::*;
+    let repeat = a["repeat"].as_u64().unwrap_or(2) as usize;
+    let mut runs = 0usize;
+    let mut violations = Vec::new();
+    let mut sample = Value::Null;
+    let mut nconf = 0usize;
+    for sc in a["scenarios"].as_array().unwrap() {
+        let s = Scenario::from_json(sc);
+        let n = s.txs.as_ref().map_or(s.n, |t| t.len());
+        // (workers, force_sequential, min_parallel_txs, fallback_sequential entry point)
+        let mut configs: Vec<(usize, bool, usize, bool)> = vec![
+            (1, false, 0, false), (2, false, 0, false), (3, false, 0, false), (8, false, 0, false),
+            (2, false, n, false), (2, false, n + 1, false), (2, true, 0, false), (1, true, 0, false), (2, false, 0, true),
+        ];
+        nconf = configs.len();
+        let mut seen: Vec<(String, (usize, bool, usize, bool))> = Vec::new();
+        for _ in 0..repeat {
+            for c in configs.iter_mut() {
+                let (r, outcomes, bundle) = run_plain(&s, c.0, c.1, c.2, c.3);
+                runs += 1;
+                // the observable: success / failing index + error, every outcome, the bundle
+                let mut accounts: Vec<String> = bundle.state.iter().map(|(k, v)| format!("{k:x}:{:?}:{:?}:{:?}:{:?}", v.info.as_ref().map(|i| (i.balance, i.nonce, i.code_hash)), v.original_info.as_ref().map(|i| (i.balance, i.nonce, i.code_hash)), v.status, {
+                    let mut st: Vec<_> = v.storage.iter().map(|(k, s)| (*k, s.present_value, s.previous_or_original_value)).collect();
+                    st.sort();
+                    st
+                })).collect();
+                accounts.sort();
+                let mut contracts: Vec<String> = bundle.contracts.keys().map(|k| format!("{k:x}")).collect();
+                contracts.sort();
+                let obs = format!("{r:?}|{outcomes:?}|{accounts:?}|{contracts:?}|{}|{}", bundle.state_size, bundle.reverts_size);
+                let digest = format!("{:x}", revm_primitives::keccak256(obs.as_bytes()));
+                if sample.is_null() {
+                    sample = json!({"scenario": s.name, "config": format!("{c:?}"), "result": format!("{r:?}"), "outcomes": outcomes.len(), "digest": digest});
+                }
+                if let Some((d0, c0)) = seen.first() &&
+                    *d0 != digest &&
+                    violations.len() < 8
+                {
+                    violations.push(json!({"scenario": s.name,
+                        "what": format!("block {}: configuration {:?} gives result {:?} / {} outcomes ({}), configuration {:?} gave a different observable ({})",
+                            s.name, c, r, outcomes.len(), &digest[..12], c0, &d0[..12]),
+                        "configs": [format!("{c0:?}"), format!("{c:?}")]}));
+                }
+                seen.push((digest, *c));
+            }
+        }
+    }
+    json!({"runs": runs, "configs": nconf, "violations": violations, "sample": sample})
 }
 
 /// C14: several callers race the entry points of ONE scheduler.
@@ -522,8 +616,11 @@ fn cmd_entry(a: &Value) -> Value {
             let (outcomes, mut state) = scheduler.take_result_and_state();
             let bundle = grevm::ParallelTakeBundle::parallel_take_bundle(&mut state, revm_database::states::bundle_state::BundleRetention::Reverts);
             let winners = results.iter().filter(|r| r.1).count();
+            let elections = record.events.iter().filter(|e| e.label == "M_RunOnce" && e.boolean("won") == Some(true)).count();
             let violation = if let Some(v) = &record.verdict {
                 Some(format!("callers cannot make progress: {v:?}"))
+            } else if elections > 1 {
+                Some(format!("{elections} callers were elected to run the block: {results:?}"))
             } else if winners != 1 {
                 Some(format!("{winners} callers executed the block (expected exactly one): {results:?}"))
             } else if results.iter().any(|r| !r.1 && !r.2) {
@@ -609,6 +706,7 @@ fn main() {
         "sched" => cmd_sched(&a),
         "hist" => cmd_hist(&a),
         "entry" => cmd_entry(&a),
+        "matrix" => cmd_matrix(&a),
         "statehist" => statehist::cmd(&a),
         other => {
             eprintln!("unknown command {other}");
